@@ -2,6 +2,7 @@
 from __future__ import annotations
 
 import ast
+import re
 import string
 
 from ..core import pymachine as PM
@@ -517,6 +518,56 @@ def optimiser_deterministic(ctx, py: PyRepo):
     order_sites(ctx, py, OrderAnalysis(py), reachable_functions(py, ENTRY_POINTS), only_modules={'counting_interpreter', 'optimizing_interpreters'})
 
 
+def metavar_step_shows_constraints(ctx, py: PyRepo):
+    """the pretty step of a constrained metavariable shows every non-empty constraint list: two MetaVar instructions that differ in a
+    list must not print alike (`MetaVar 1` for a positive-only metavariable reads like the clean one).  On every returning path of
+    PrettyPrintingInterpreter.metavar each sequence parameter is either forced empty by the path's conditions or iterated with its
+    elements written.  (The table-driven spelling is unrolled; an early `return` out of the table loop skips the later lists.)"""
+    from ..core.pyeval import PyEval, show
+    from ..core.wiring import forced_empty
+    ci = py.cls('PrettyPrintingInterpreter')
+    fn = ci.methods.get('metavar')
+    ctx.require(fn is not None, 'anchor vanished: PrettyPrintingInterpreter.metavar')
+    where = py.where(ci.module, fn)
+    seq_params = [a.arg for a in fn.args.args[1:] if a.annotation is not None and re.search(r'tuple|list|Sequence', ast.unparse(a.annotation))]
+    ctx.require(len(seq_params) >= 5, 'PrettyPrintingInterpreter.metavar: the five constraint lists are no longer sequence parameters')
+    from ..core.pyfacts import self_method_resolver
+    paths = PyEval(resolver=self_method_resolver(py, ci, ('param', 'self'), only_private=True), unroll_literal_loops=True).paths(fn)
+    n, lost_all = 0, []
+    for p in paths:
+        if p.end[0] == 'raise':
+            continue
+        n += 1
+        printed = set()
+        for e in p.events:
+            if e.kind == 'loop' and e.value[0] == 'for' and e.value[2][0] == 'param' and e.value[2][1] in seq_params:
+                elem = ('elem', e.value[2])
+                if any(x.kind == 'ecall' and x.value[1][0] == 'attr' and x.value[1][2] == 'write' and _mentions_val(x.value, elem)
+                       for sp in e.extra for x in sp.events):
+                    printed.add(e.value[2][1])
+            if e.kind == 'ecall' and e.value[1][0] == 'attr' and e.value[1][2] == 'write':
+                for L in seq_params:
+                    # written as a whole: str(lst) / ' '.join(map(str, lst))
+                    if _mentions_val(e.value, ('param', L)) and not (e.value[2] and e.value[2][0][0] == 'fstr' and all(
+                            not _mentions_val(part, ('param', L)) or (part[0] == 'fmt' and part[1] == ('call', ('name', 'len'), (('param', L),), ()))
+                            for part in e.value[2][0][1])):
+                        printed.add(L)
+        forced = forced_empty(p.conds, seq_params)
+        lost = [L for L in seq_params if L not in printed and L not in forced]
+        if lost:
+            lost_all.append((lost, ' and '.join(f'{show(c)[:40]} is {b}' for c, b in p.conds[:3])))
+    ctx.ob('step-shows-operands', 'metavar/constraint-lists', n >= 2 and not lost_all,
+           'PrettyPrintingInterpreter.metavar has a path that prints the step without the constraint list(s) '
+           + '; '.join(f'{l} (when {w or "always"})' for l, w in lost_all[:2])
+           + ': the step of a constrained metavariable then reads like that of another instruction', where, facts={'paths': n})
+
+
+def _mentions_val(v, needle) -> bool:
+    if v == needle:
+        return True
+    return isinstance(v, tuple) and any(_mentions_val(x, needle) for x in v)
+
+
 def run(ctx):
     py = PyRepo.get()
     optimiser_deterministic(ctx, py)
@@ -530,6 +581,7 @@ def run(ctx):
     from .c14 import writer_emits
     writer_emits(ctx, py, Wiring(py))
     one_line_per_instruction(ctx, py)
+    metavar_step_shows_constraints(ctx, py)
     ctx.floor('format-covers-deps', 28)
     ctx.floor('one-line-per-step', 60)
     ctx.explanation = (
